@@ -263,7 +263,8 @@ def main(ctx):
             cases.append({"fams": [f0, f1], "cond_on": cond, "assign": "A", "run_seed": ctx.seed,
                           "cdf_points": ([[0.5, 0.5], [0.9, 0.3]] if full else ([[0.3, 0.8]] if one else [])),
                           "marginal_dims": ([0, 1] if full else []),
-                          "marginal_qs": ([0.2, 0.9] if q else [0.1, 0.6, 0.97])})
+                          # evaluation points deliberately NOT in ascending order (results must come back in the order asked)
+                          "marginal_qs": ([0.9, 0.2] if q else [0.6, 0.97, 0.1])})
     triples = [["WeibullDistribution", "LogNormalDistribution", "ExponentiatedWeibullDistribution"],
                ["LogNormalDistribution", "GeneralizedGammaDistribution", "WeibullDistribution"],
                ["ExponentiatedWeibullDistribution", "WeibullDistribution", "LogNormalNormFitDistribution"]]
